@@ -60,6 +60,14 @@ func (c19) Gen(rng *rand.Rand, tier string, idx int) Case {
 		{"thr", itoa(int64(thr[0])), itoa(int64(thr[1]))}, {"timeout", btok(timeout)},
 		{"nprod", itoa(int64(nprod))}, {"rows", itoa(int64(rows))}}
 	c.Stat = append(c.Stat, "strat-"+strat, fmt.Sprintf("nprod-%d", nprod), fmt.Sprintf("cap-%d", capn))
+	if idx%40 == 39 {
+		// option plumbing: a strategy name that is not one of the three canonical spellings must be refused at Execute
+		// (accepting it and running some other strategy would, e.g., let "Block" drop rows)
+		c.Cfg = append(c.Cfg, []string{"badstrat", []string{"Block", "BLOCK", "Expand", " drop", "blocking", "DROP"}[rng.Intn(6)]})
+		c.Ops = [][]string{{"execute"}}
+		c.Stat = append(c.Stat, "strategy-name-not-canonical")
+		return c
+	}
 	if tier == "thorough" && idx%25 == 24 {
 		// free-running stress (search only, DESIGN §3.5): real scheduler, conservation oracle
 		c.Ops = [][]string{{"free", itoa(int64(200 + rng.Intn(800))), itoa(int64(rng.Intn(4)))}}
@@ -559,6 +567,16 @@ func (c19) Exec(c Case) [][][]string {
 	}
 	nprod, rows := c19cfgInt(c, "nprod", 1), c19cfgInt(c, "rows", 1)
 	perf, timeout := c19perf(c)
+	if v := c19cfgGet(c, "badstrat"); len(v) > 0 {
+		perf.OverflowConfig.Strategy = v[0]
+		ssql := streamsql.New(streamsql.WithDiscardLog(), streamsql.WithCustomPerformance(perf))
+		err := ssql.Execute("SELECT p, k FROM stream")
+		ssql.Stop()
+		if err != nil {
+			return [][][]string{{{"refused"}}}
+		}
+		return [][][]string{{{"accepted"}}}
+	}
 
 	timed := []string{"expand.retry", "drop.retry", "cons.recv"}
 	if timeout {
